@@ -1297,9 +1297,11 @@ pub fn rec_expiry(args: &Args) {
         let _ = h.iresp(&mut out, "slow", &mut pushed, &json!({"kind": "pushed-response"}));
     }
     // reclamation: abandoned transfers on distinct endpoints; idle; one unrelated call; nothing left alive
-    for n in if thorough { vec![1usize, 5, 20, 50] } else { vec![1usize, 12] } {
+    // (the "next use" being: a request on an unrelated key, a response pushed through on an unrelated key,
+    // a request on one of the abandoned keys, a request on a key that was kept busy throughout the idle time)
+    for (n, variant) in if thorough { vec![(1usize, 0u8), (5, 1), (20, 2), (50, 3), (7, 0), (3, 1), (2, 2), (4, 3), (9, 4), (11, 5)] } else { vec![(1usize, 0u8), (12, 1), (3, 2), (5, 3), (4, 4), (6, 5)] } {
         let ttl = 30u64;
-        let prefix = format!("abandoned{}-", n);
+        let prefix = format!("abandoned{}v{}-", n, variant);
         let mut h = H::new(&mut out, 1152, ttl, start);
         for i in 0..n {
             let epn = format!("{}{}", prefix, i);
@@ -1315,12 +1317,58 @@ pub fn rec_expiry(args: &Args) {
             let _ = guarded(|| h.h.intercept_response(&mut req));
         }
         let held = live_with_prefix(&prefix);
-        std::thread::sleep(Duration::from_millis(ttl * 4 + 5));
-        let before = live_with_prefix(&prefix);
         let other = mkreq(&ReqSpec { code: 1, typ: 0, mid: next_mid(), tok: vec![3], segs: &[b"unrelated".to_vec()], b1: None, b2: None, pay: vec![], extra: vec![] });
-        let _ = h.ireq(&mut out, "unrelated", &other, &json!({"kind": "reclaim-trigger"}));
+        if variant == 3 {
+            // a key that stays busy: used every third of the expiry while the others sit idle
+            for _ in 0..13 {
+                std::thread::sleep(Duration::from_millis(ttl / 3));
+                let mut rq = CoapRequest::from_packet(other.clone(), Ep::new("busy-key"));
+                let _ = guarded(|| h.h.intercept_request(&mut rq));
+            }
+        } else {
+            std::thread::sleep(Duration::from_millis(ttl * 4 + 5));
+        }
+        let before = live_with_prefix(&prefix);
+        match variant {
+            1 => {
+                let mut pushed = CoapRequest::from_packet(other.clone(), Ep::new("unrelated"));
+                if let Some(resp) = pushed.response.as_mut() {
+                    resp.message.payload = body_bytes(10, 1);
+                }
+                let _ = guarded(|| h.h.intercept_response(&mut pushed));
+            }
+            4 => {
+                // a response that already carries a Block2 option of its own (the application fragments by hand)
+                let mut pushed = CoapRequest::from_packet(other.clone(), Ep::new("unrelated"));
+                if let Some(resp) = pushed.response.as_mut() {
+                    resp.message.payload = body_bytes(16, 1);
+                    resp.message.add_option(CoapOption::Block2, BlockValue { num: 0, more: true, size_exponent: 0 }.into());
+                }
+                let _ = guarded(|| h.h.intercept_response(&mut pushed));
+            }
+            5 => {
+                // a message that gets no response at all (an ACK) passed through both entry points
+                let mut ackp = other.clone();
+                ackp.header.set_type(coap_lite::MessageType::Acknowledgement);
+                let mut rq = CoapRequest::from_packet(ackp, Ep::new("unrelated"));
+                rq.response = None;
+                let _ = guarded(|| h.h.intercept_response(&mut rq));
+            }
+            2 => {
+                let again = mkreq(&ReqSpec { code: 1, typ: 0, mid: next_mid(), tok: vec![1], segs: &seg, b1: None, b2: None, pay: vec![], extra: vec![] });
+                let mut rq = CoapRequest::from_packet(again, Ep::new("scratch-trigger"));
+                let _ = guarded(|| h.h.intercept_request(&mut rq));
+            }
+            3 => {
+                let mut rq = CoapRequest::from_packet(other.clone(), Ep::new("busy-key"));
+                let _ = guarded(|| h.h.intercept_request(&mut rq));
+            }
+            _ => {
+                let _ = h.ireq(&mut out, "unrelated", &other, &json!({"kind": "reclaim-trigger"}));
+            }
+        }
         let after = live_with_prefix(&prefix);
-        out.ev(json!({"op": "reclaim", "abandoned": n, "held_while_fresh": held, "live_before_use": before, "live_after_use": after, "ttl": ttl}));
+        out.ev(json!({"op": "reclaim", "abandoned": n, "held_while_fresh": held, "live_before_use": before, "live_after_use": after, "ttl": ttl, "next_use": variant}));
     }
     let n = out.finish();
     println!("{}", json!({"events": n}));
